@@ -26,7 +26,7 @@ FLOORS = {
     'quick': {'lift_cases': 2000, 'lift_positions': 12000, 'lift_through_workbook': 100, 'fit_cases': 512,
               'fit_positions': 4000, 'fit_member_cells': 4000, 'fit_after_set_value': 400, 'shape_pairs': 256,
               'broadcast:row-x-column': 80, 'broadcast:scalar': 300, 'broadcast:row': 150, 'broadcast:column': 150,
-              'elements:error': 100, 'elements:text': 300},
+              'elements:error': 100, 'elements:text': 300, 'chained_fit_cases': 50},
     'thorough': {'lift_cases': 150000, 'fit_cases': 12000, 'shape_pairs': 256, 'lift_through_workbook': 5000},
 }
 EXHAUSTIVE = {'quick': False, 'thorough': False}
@@ -304,8 +304,66 @@ def one_fit(ctx, rh, rw, th, tw, kind, fill, offset):
     check(tuple(tuple(r) for r in new), 'after set_value on a source cell')
 
 
+def chained_fit(ctx, ysrc, ytgt, xtgt, first):
+    """two array formulas: Y = {=SRC*1} over its target, X = {=Y_target+1} over another target of a
+    different shape; after a set_value on a source cell of Y, X (a member or the range) is asked for
+    before Y, so that Y is evaluated inside X's evaluation"""
+    (sh, sw), (yh, yw), (xh, xw) = ysrc, ytgt, xtgt
+    vals = grid('int', sh, sw, 3)
+    cells = {}
+    for i in range(sh):
+        for j in range(sw):
+            cells[wb.coord(1 + j, 1 + i)] = vals[i][j]
+    src = f'A1:{wb.coord(sw, sh)}' if (sh, sw) != (1, 1) else 'A1'
+    yref = f'F1:{wb.coord(5 + yw, yh)}' if (yh, yw) != (1, 1) else 'F1'
+    xref = f'A10:{wb.coord(xw, 9 + xh)}' if (xh, xw) != (1, 1) else 'A10'
+    spec = {'sheets': [['Sheet1', cells]], 'names': {}, 'calc': None,
+            'arrays': [['Sheet1', yref, f'={src}*1'], ['Sheet1', xref, f'={yref}+1']]}
+    case = {'kind': 'chain', 'ysrc': list(ysrc), 'ytgt': list(ytgt), 'xtgt': list(xtgt), 'first': first}
+    comp = wb.compile_mem(spec)
+    ctx.count('chained_fit_cases')
+    ctx.case(('chain', ysrc, ytgt, xtgt, first))
+
+    def check(values, label):
+        yval = fit_expected(values, yh, yw)
+        xres = tuple(tuple((v + 1) if isinstance(v, (int, float)) else v for v in row) for row in yval)
+        xval = fit_expected(xres, xh, xw)
+        order = [('x', xval, 10, 1), ('y', yval, 1, 6)]
+        if first == 'y':
+            order.reverse()
+        for name, want, r0, c0 in order:
+            for i in range(len(want)):
+                for j in range(len(want[0])):
+                    m = f'Sheet1!{wb.coord(c0 + j, r0 + i)}'
+                    got = wb.outcome(comp.evaluate, m)
+                    ctx.count('fit_member_cells')
+                    if got[0] == 'x' or not wb.same(got[1], want[i][j]):
+                        ctx.violation(f'chained-array-member-wrong/{name}-evaluated-{"first" if name == first else "second"}',
+                                      f'{label}: member {m} of array formula {name.upper()} = {got!r}, its element '
+                                      f'is {want[i][j]!r} (Y={{={src}*1}} over {yref}, X={{={yref}+1}} over {xref})',
+                                      case)
+                        return False
+        return True
+
+    if not check(vals, 'first evaluation'):
+        return
+    new = [list(r) for r in vals]
+    new[0][0] = 50
+    comp.set_value('Sheet1!A1', 50)
+    ctx.count('fit_after_set_value')
+    check(tuple(tuple(r) for r in new), f'after set_value on a source cell of Y, {first.upper()} asked for first')
+
+
 def run(ctx):
     rng = ctx.rng
+    # ---- (3) an array formula reading the target of another array formula of a different shape
+    k = 0
+    for ysrc, ytgt in (((2, 2), (2, 2)), ((1, 1), (3, 1)), ((1, 3), (2, 3)), ((3, 3), (2, 2)), ((2, 1), (2, 2))):
+        for xtgt in ((4, 4), (1, 1), (3, 3), (2, 3), (4, 1)):
+            for first in ('x', 'y'):
+                k += 1
+                if ctx.mine(k):
+                    chained_fit(ctx, ysrc, ytgt, xtgt, first)
     # ---- (2) all shape pairs (deterministic, partitioned over the shards)
     shapes = [(h, w) for h in range(1, 5) for w in range(1, 5)]
     n = 0
@@ -402,7 +460,9 @@ def _tt(x):
 
 def replay(ctx, case):
     k = case['kind']
-    if k == 'fit':
+    if k == 'chain':
+        chained_fit(ctx, tuple(case['ysrc']), tuple(case['ytgt']), tuple(case['xtgt']), case['first'])
+    elif k == 'fit':
         one_fit(ctx, case['rh'], case['rw'], case['th'], case['tw'], case['fkind'], case['fill'], case['offset'])
     elif k == 'lift-op':
         sym = dict(OPS)[case['op']]
